@@ -3,6 +3,7 @@ package checks
 import (
 	"fmt"
 	"reflect"
+	"strings"
 
 	"github.com/hyperjumptech/grule-rule-engine/ast"
 	"github.com/hyperjumptech/grule-rule-engine/builder"
@@ -63,11 +64,17 @@ func (o c04TwinOp) String() string {
 }
 
 func c04TwinTypes(rep *ev.Reporter, depth int) (seqs, ops int64) {
+	return twinTypes(rep, "C04", depth, []int{0, 1, 2})
+}
+
+// twinTypes: prop is the property whose check runs the family (signature prefix), kinds the operation kinds
+// (0 write, 1 compound write, 2 read).
+func twinTypes(rep *ev.Reporter, prop string, depth int, kinds []int) (seqs, ops int64) {
 	makers := []func() interface{}{c04TwinA, c04TwinB, c04TwinC}
 	var alphabet []c04TwinOp
 	for t := range makers {
 		for _, f := range []string{"A", "B", "C"} {
-			for k := 0; k < 3; k++ {
+			for _, k := range kinds {
 				alphabet = append(alphabet, c04TwinOp{t, f, k})
 			}
 		}
@@ -86,7 +93,7 @@ func c04TwinTypes(rep *ev.Reporter, depth int) (seqs, ops int64) {
 			return
 		}
 		reported[sig] = true
-		rep.Violation(sig, fmt.Sprintf("%s\n  operations (one knowledge base and one engine call each, in one process): %v", what, seq), map[string]interface{}{"case": "c04/twin-types", "ops": fmt.Sprint(seq)})
+		rep.Violation(sig, fmt.Sprintf("%s\n  operations (one knowledge base and one engine call each, in one process): %v", what, seq), map[string]interface{}{"case": strings.ToLower(prop) + "/twin-types", "ops": fmt.Sprint(seq)})
 	}
 	run := func(text string, x interface{}, fetch bool) (int, error) {
 		lib := ast.NewKnowledgeLibrary()
@@ -134,7 +141,7 @@ func c04TwinTypes(rep *ev.Reporter, depth int) (seqs, ops int64) {
 						nv = want[o.typ][o.field].(int64) + next
 					}
 					if _, err := run(fmt.Sprintf(`rule w { when true then %s; Retract("w"); }`, act), x, false); err != nil {
-						fail("C04:write-fails:twin-types", fmt.Sprintf("%v: %v", o, err), seq)
+						fail(prop+":write-fails:twin-types", fmt.Sprintf("%v: %v", o, err), seq)
 						return
 					}
 					want[o.typ][o.field] = nv
@@ -142,17 +149,17 @@ func c04TwinTypes(rep *ev.Reporter, depth int) (seqs, ops int64) {
 					cur := want[o.typ][o.field].(int64)
 					n, err := run(fmt.Sprintf(`rule eq { when X.%s == %d then Retract("eq"); } rule ne { when X.%s != %d then Retract("ne"); }`, o.field, cur, o.field, cur), x, true)
 					if err != nil {
-						fail("C04:read-fails:twin-types", fmt.Sprintf("%v: %v", o, err), seq)
+						fail(prop+":read-fails:twin-types", fmt.Sprintf("%v: %v", o, err), seq)
 						return
 					}
 					if n != 1 {
-						fail("C04:read-sees-another-field:twin-types", fmt.Sprintf("%v: the field holds %d; of the rules 'X.%s == %d' and 'X.%s != %d' %d matched", o, cur, o.field, cur, o.field, cur, n), seq)
+						fail(prop+":read-sees-another-field:twin-types", fmt.Sprintf("%v: the field holds %d; of the rules 'X.%s == %d' and 'X.%s != %d' %d matched", o, cur, o.field, cur, o.field, cur, n), seq)
 						return
 					}
 				}
 				for i := range objs {
 					if got := fieldsOf(objs[i]); !reflect.DeepEqual(got, want[i]) {
-						fail("C04:wrong-field-written:twin-types", fmt.Sprintf("after %v the struct of type #%d (%T) holds %v, the addressed writes give %v", o, i, objs[i], got, want[i]), seq)
+						fail(prop+":wrong-field-written:twin-types", fmt.Sprintf("after %v the struct of type #%d (%T) holds %v, the addressed writes give %v", o, i, objs[i], got, want[i]), seq)
 						return
 					}
 				}
